@@ -138,7 +138,14 @@ def check_object(rec, obj, layout, N, rng, tag, n_draws, priors):
         theta = rng.normal(size=N) * 10.0 ** rng.uniform(-2, 2)
         for i in idxs:
             theta[i] = layout[i].inside_point(rng)
-        terms = np.array([layout[i].logpdf(theta[i]) for i in idxs])
+        if rep == 2:
+            # integer-typed parameter vector (legal input): only when the rounded point is still strictly inside every support
+            ti = np.rint(np.clip(theta, -1e15, 1e15))
+            inside = lambda v, sp: (sp[0] is None or sp[0] < v) and (sp[1] is None or v < sp[1])
+            if all(inside(ti[i], layout[i].support()) for i in idxs):
+                theta = ti.astype(np.int64)
+                rec.count("cases:integer_typed_parameters")
+        terms = np.array([layout[i].logpdf(float(theta[i])) for i in idxs])
         ref = terms.sum()
         val = guarded(obj, theta)
         rec.count(f"post:{tag}_call")
@@ -172,7 +179,7 @@ def check_object(rec, obj, layout, N, rng, tag, n_draws, priors):
         limited = [i for i in idxs if layout[i].kind != "G"]
         if limited:
             i = int(rng.choice(limited))
-            t2 = theta.copy()
+            t2 = np.array(theta, dtype=float)
             t2[i] = layout[i].outside_point(rng)
             v2 = guarded(obj, t2)
             rec.count("outside_support_evaluations")
